@@ -8,7 +8,7 @@ base=${VERIF_SCRATCH:-/var/tmp}/verif-scratch-$name-$$
 rm -rf "$base"; mkdir -p "$base"
 rsync -a --exclude target --exclude .git /repo/ "$base/"
 if [ -n "${SCRATCH_PATCH:-}" ]; then
-  (cd "$base" && patch -p1 -s < "$SCRATCH_PATCH") || { echo "PATCH-FAILED"; rm -rf "$base"; exit 3; }
+  (p=$(readlink -f "$SCRATCH_PATCH"); cd "$base" && patch -p1 -s < "$p") || { echo "PATCH-FAILED"; rm -rf "$base"; exit 3; }
 fi
 if [ -n "${SCRATCH_SED:-}" ]; then
   mapfile -t parts < <(printf '%s\n' "${SCRATCH_SED//@@/$'\n'}")
